@@ -22,7 +22,7 @@ FORMULAS = {"C09": ["C09Deterministic", "C09Output", "C10Cmp"], "C10": ["C10Best
 def mc_cfg(R, W, K, variant="spec", faults='{"none", "badArgs", "jsonFail", "svgFail"}', live=True, M=7):
     return ("SPECIFICATION Spec\nCONSTANTS\n  R = %d\n  W = %d\n  K = %d\n  Stages = 3\n  M = %d\n  Variant = \"%s\"\n"
             "  Faults = %s\nINVARIANTS TypeOK Ownership InputUnchanged Deterministic ReduceTreeIndependent BestWritten "
-            "LoggedIsWritten PrefixMonotone ExitOK\n%sCHECK_DEADLOCK FALSE\n"
+            "LoggedIsWritten FileIsBest PrefixMonotone ExitOK\n%sCHECK_DEADLOCK FALSE\n"
             % (R, W, K, M, variant, faults, "PROPERTIES Terminates\n" if live else ""))
 
 
